@@ -428,12 +428,25 @@ def native_replay(ctx, ob, vins, tag):
     return st, out, rpath
 
 
+_native_locks = {}
+_native_guard = threading.Lock()
+_vin_counter = [0]
+
+
 def replay_values(ctx, ob, vins):
-    try:
-        nb = build_binary(ctx, ob, native=True)
-    except Exception as ex:
-        return "build-error", str(ex)[-2000:]
-    vf = nb + ".vin"
+    with _native_guard:
+        lk = _native_locks.setdefault(ob.id, threading.Lock())
+        _vin_counter[0] += 1
+        seq = _vin_counter[0]
+    with lk:
+        nb = ctx.native_cache.get(ob.id)
+        if nb is None:
+            try:
+                nb = build_binary(ctx, ob, native=True)
+            except Exception as ex:
+                return "build-error", str(ex)[-2000:]
+            ctx.native_cache[ob.id] = nb
+    vf = f"{nb}.{seq}.vin"
     with open(vf, "w") as f:
         f.write("\n".join(str(v) for v in vins) + "\n")
     env = dict(os.environ)
